@@ -390,7 +390,7 @@ func init() {
 	register("c01", func(args []string) int {
 		f := parseFlags("c01", args)
 		rep := newReport("C01", f)
-		rep.Rule = "random histories (alloc / overwrite / free / flush / checkpoint / rollback, bounded + unbounded, WAL limits 1/2/3/1000, meta areas 0/1/4/8) on the simulated disk; (K2) the complete disk trace of every history is checked by the extracted Coq monitor; (oracle) crash images at I/O boundaries (all in thorough, 40 sampled per history in quick) x subsets of the un-synced page chunks (all subsets up to 4 [quick] / 8 [thorough] chunks, otherwise none/all/singletons/complements/random) x byte-prefix tears of in-flight header writes, each reopened through the real open path, compared with the allowed committed state(s) identified by the header txid, followed by a continuation transaction, re-verification and a second reopen; (K1) the recovery model vs. the open path on sampled crash images. plus transactions of more than 1024 / 2048 page writes (several batches of the background writer); plus append-only histories whose transactions are flushed early (idle writer at Commit). Non-trivial: every distinct (history, boundary, subset, tear)."
+		rep.Rule = "random histories (alloc / overwrite / free / flush / checkpoint / rollback, bounded + unbounded, WAL limits 1/2/3/1000, meta areas 0/1/4/8) on the simulated disk; (K2) the complete disk trace of every history is checked by the extracted Coq monitor; (oracle) crash images at I/O boundaries (all in thorough, 40 sampled per history in quick) x subsets of the un-synced page chunks (all subsets up to 4 [quick] / 8 [thorough] chunks, otherwise none/all/singletons/complements/random) x byte-prefix tears of in-flight header writes, each reopened through the real open path, compared with the allowed committed state(s) identified by the header txid, followed by a continuation transaction, re-verification and a second reopen; (K1) the recovery model vs. the open path on sampled crash images; (K1) the writer's scheduling queue (Schedule / Sync / nextCommand with buffers of 1..1024 entries, bursts bigger than the buffer) vs. Model/WriterQueue.v, with the theorem's statement (handed out = scheduled, syncs in place) as an oracle. plus transactions of more than 1024 / 2048 page writes (several batches of the background writer); plus append-only histories whose transactions are flushed early (idle writer at Commit). Non-trivial: every distinct (history, boundary, subset, tear)."
 		m, err := model.Start()
 		if err != nil {
 			fmt.Fprintln(os.Stderr, err)
@@ -420,6 +420,7 @@ func init() {
 		if f.n > 0 {
 			n = f.n
 		}
+		writerQueueK1(rep, m, r, 10*n)
 		for i := 0; i < n; i++ {
 			hseed := r.Int63()
 			hr := rand.New(rand.NewSource(hseed))
